@@ -13,7 +13,7 @@ Search: implementation output alone through strict Python json.loads and the ext
         tomllib, PyYAML and the implementation's own std.parseJson / std.parseYaml as test-level
         decoders for the other targets.
 """
-import os, sys, re, json, struct, subprocess, tempfile, shutil, ast, math
+import os, sys, re, json, struct, subprocess, tempfile, shutil, ast, math, keyword
 import vlib
 from vlib import hx, hxl, cps, uncps
 sys.path.insert(0, os.path.dirname(os.path.dirname(os.path.abspath(__file__))))
@@ -31,8 +31,8 @@ except Exception:            # pragma: no cover
 ID = 'C05'
 COMPONENTS = ['jsonesc', 'manifest']
 THEOREMS = ['C05_esc_table_matches_model', 'C05_key_tables_match_model', 'C05_escape_valid', 'C05_escape_string_json_valid',
-            'C05_unescape_escape', 'C05_manifest_parse_roundtrip', 'C05_manifest_parse_roundtrip_finite',
-            'C05_cli_default_roundtrip', 'C05_ws_erasure', 'C05_builtin_formats_ws', 'C05_toml_basic_string_ok',
+            'C05_unescape_escape', 'C05_decoder_strings_strict', 'C05_manifest_parse_roundtrip', 'C05_manifest_parse_roundtrip_finite',
+            'C05_manifest_injective', 'C05_cli_default_roundtrip', 'C05_ws_erasure', 'C05_builtin_formats_ws', 'C05_toml_basic_string_ok',
             'C05_python_string_ok', 'C05_safe_toml_plain_sound', 'C05_escape_key_toml_ok', 'C05_safe_yaml_plain_chars',
             'C05_safe_yaml_plain_core_string_refuted', 'C05_nonvacuous_hyps',
             'C05_nonvacuous_runs']
@@ -854,13 +854,15 @@ def ident_keygen(rng):
     return lambda: rng.choice(['a', 'b', 'c', 'k1', 'key_2', 'Z', 'x9', 'foo', 'bar', 'v_'])
 
 
-def check_targets(run, impl_exe, rng, values):
-    progs, meta = [], []
+def check_targets(run, impl_exe, rng, values, model_exe=None, numtab=None):
+    progs, meta, mlines = [], [], []
     for i, v in enumerate(values):
         ev = expected(v)
         vsrc = src_of(v, rng)
         cid = 't%d' % i
         progs.append((cid + 'py', 'str=1', 'std.manifestPython(%s)' % vsrc))
+        if model_exe is not None:
+            mlines.append('%s\tpy\t-\t%s\t%s' % (cid, numtable_field(numtab, doubles_of(ev, set())), enc(ev)))
         yaml_ok = not any(s.endswith('\n') for s in strings_of(ev, []))
         if yaml_ok:
             a, q = rng.random() < 0.5, rng.random() < 0.5
@@ -869,10 +871,11 @@ def check_targets(run, impl_exe, rng, values):
             progs.append((cid + 'ys', 'str=1', 'std.manifestYamlStream([%s, %s], indent_array_in_object=%s, c_document_end=%s, quote_keys=%s)' % (vsrc, vsrc, str(a).lower(), str(rng.random() < 0.5).lower(), str(q).lower())))
         if ev[0] == 'o' and not has_null(ev):
             progs.append((cid + 'to', 'str=1', 'std.manifestTomlEx(%s, %s)' % (vsrc, rng.choice(['""', '"  "', '"\\t"']))))
-        if ev[0] == 'o' and all(re.match(r'[A-Za-z_][A-Za-z0-9_]*\Z', m[0]) for m in ev[1]):
+        if ev[0] == 'o' and all(re.match(r'[A-Za-z_][A-Za-z0-9_]*\Z', m[0]) and not keyword.iskeyword(m[0]) for m in ev[1]):
             progs.append((cid + 'pv', 'str=1', 'std.manifestPythonVars(%s)' % vsrc))
         meta.append((cid, v, ev, vsrc))
     impl = eval_cases(impl_exe, progs)
+    model = vlib.run_sharded(model_exe, mlines, 300) if model_exe is not None else {}
     srcs = {p[0]: p[2] for p in progs}
     for cid, v, ev, vsrc in meta:
         want = to_py(ev)
@@ -887,6 +890,14 @@ def check_targets(run, impl_exe, rng, values):
             if text is None:
                 run.violation('target-eval-failed:' + suffix, '%s failed: %s' % (srcs[k][:80], st), replay)
                 continue
+            if suffix in ('py', 'pv') and model_exe is not None:
+                mf = model.get(cid, 'NOOUTPUT').split('\t')
+                if len(mf) != 2 or not mf[0].startswith('P'):
+                    run.violation('model-machinery', 'model driver failed on a python case: %s' % mf[0][:80], replay, concrete=False)
+                else:
+                    want_text = uncps(mf[0][1:]) if suffix == 'py' else (uncps(mf[1][1:]) if mf[1] != 'VNONE' else None)
+                    if text != want_text:
+                        run.violation('python-correspondence', '%s: implementation %r / model %r' % (srcs[k][:60], text[:60], (want_text or 'None')[:60]), replay, concrete=False)
             strs = strings_of(ev, [])
             cav = yaml_caveat(strs)
             nonprint = cav == 'nonprint'
@@ -1117,14 +1128,14 @@ def check(run):
     cli_vals = vals[:ncorpus] + [gen_value(rng, rng.choice([1, 2, 3, 5]), ident_keygen(rng) if rng.random() < 0.6 else None) for _ in range(40 if quick else 1200)]
     cli_vals += [('a', [gen_value(rng, 2) for _ in range(rng.randint(0, 4))]) for _ in range(12 if quick else 300)]
     dbl = set()
-    for v in vals + cli_vals:
+    for v in vals + cli_vals + target_vals:
         doubles_of(expected(v), dbl)
     numtab = number_texts(run, impl_exe, dbl)
     run.count('distinct_doubles', len(dbl))
     check_values(run, impl_exe, man_exe, rng, cases, numtab)
     lap('values')
     # 4. other targets
-    check_targets(run, impl_exe, rng, target_vals)
+    check_targets(run, impl_exe, rng, target_vals, man_exe, numtab)
     lap('targets')
     # 5. CLI
     check_cli(run, cli, man_exe, rng, cli_vals, numtab)
